@@ -152,8 +152,7 @@ def check (x : Step) : List (String × String) :=
     (rejected && isProxy && wrote, "C11.rejected_refresh_still_auth", "provider rejected the refresh token (4xx) but the request was forwarded with a token"),
     (rejected && (x.op == "refresh" || x.op == "fwdauth") && x.status != 401, "C11.rejected_refresh_still_auth", s!"provider rejected the refresh token but {x.op} answered {x.status}"),
     (isProxy && wrote && x.granted == 0 && pre.st == 1 && expired pre now, "C11.stale_token", "expired token forwarded although no refresh succeeded"),
-    (isProxy && wrote && x.granted > 0 && x.newat == "", "C11.stale_token", "a token was forwarded although the refresh answer carried no access token"),
-    (x.granted > 0 && x.newat == "" && post.st == 1 && post.atok != "", "C11.stale_token", "the stored session still holds an access token after a refresh answer without tokens"),
+    (x.plan == "broken" && post.st == 1 && pre.st == 1 && post.atok != pre.atok, "C11.stale_token", "an unusable provider answer (non-JSON, or a 200 without access token) changed the stored access token"),
     (x.plan == "ok" && x.contacted > 0 && x.granted > 0 && x.op == "refresh" && x.status != 200, "C11.transient_not_absorbed", "refresh granted but endpoint failed"),
     -- C09 ---------------------------------------------------------------------------------------------------------------
     ((x.ck == 2 || pre.st == 2) && isProxy && wrote, "C09.accepted_tampered.history", "a request with an undecryptable cookie / store value got a token"),
